@@ -4,6 +4,7 @@ VARIABLE sc
 RInit == Init /\ sc = "init"
 RNext == \E d \in Steps :
            \/ \E ok \in BOOLEAN : UpStart(d, ok) /\ sc' = ToJson([a |-> "start", d |-> d, ok |-> ok])
-           \/ \E ok \in (IF recording THEN {TRUE} ELSE BOOLEAN) : UpWrite(d, ok) /\ sc' = ToJson([a |-> "w", d |-> d, ok |-> ok])
-           \/ UpStop(d) /\ sc' = ToJson([a |-> "stop", d |-> d])
+           \/ \E ok \in (IF recording THEN {TRUE} ELSE BOOLEAN), sok \in BOOLEAN :
+                 UpWrite(d, ok, sok) /\ sc' = ToJson([a |-> "w", d |-> d, ok |-> ok, sok |-> sok])
+           \/ \E sok \in (IF recording THEN BOOLEAN ELSE {TRUE}) : UpStop(d, sok) /\ sc' = ToJson([a |-> "stop", d |-> d, sok |-> sok])
 =============================================================================
